@@ -18,10 +18,11 @@ let o_ecdsa c pub dig r s =
   yes (oracle (String.concat " " ["ecdsa_verify"; curve_name c; hexs pub; hexs dig; hexs (be_min r); hexs (be_min s)]))
 let o_ed pub msg sg = yes (oracle (String.concat " " ["ed25519_verify"; hexs pub; hexs msg; hexs sg]))
 let o_pkcs1 n e h dig sg =
-  yes (oracle (String.concat " " ["rsa_pkcs1_verify"; hexs n; dec_of_n e; hash_name h; hexs dig; hexs sg]))
-(* RSASSA-PSS-VERIFY with the salt length enforced exactly (RFC 8017) *)
+  yes (oracle (String.concat " " ["rsa_pkcs1_core"; hexs n; dec_of_n e; hash_name h; hexs dig; hexs sg]))
+(* RSASSA-PSS-VERIFY with the salt length enforced exactly (RFC 8017).  Both RSA oracles are the
+   "core": they read the signature as an integer; the length rule is std_pkcs1 / std_pss in the model *)
 let o_pss n e h salt dig sg =
-  yes (oracle (String.concat " " ["rsa_pss_verify_strict"; hexs n; dec_of_n e; hash_name h; dec_of_n salt; hexs dig; hexs sg]))
+  yes (oracle (String.concat " " ["rsa_pss_core_strict"; hexs n; dec_of_n e; hash_name h; dec_of_n salt; hexs dig; hexs sg]))
 
 let show = function Ok _ -> "accept" | Err -> "reject" | Panic -> "MODEL-PANIC"
 
@@ -59,8 +60,10 @@ let handle line =
        let k = { ek_curve = curve_of c; ek_hash = hash_of h; ek_enc = enc_of e; ek_variant = v; ek_id = id; ek_pub = pub } in
        show (ecdsa_verify o_hash o_ecdsa k sg msg)
      | "ed25519", _ -> show (ed25519_verify o_ed v id pub sg msg)
-     | "pkcs1", [h; e] -> show (pkcs1_verify o_hash o_pkcs1 (rsa_key (hash_of h) v id pub (n_of_dec e) N0) sg msg)
-     | "pss", [h; e; salt] -> show (pss_verify o_hash o_pss (rsa_key (hash_of h) v id pub (n_of_dec e) (n_of_dec salt)) sg msg)
+     (* crypto/rsa's length rule is applied by the model itself ([std_pkcs1] / [std_pss],
+        the functions of the wrong-length theorems); the oracle answers the core *)
+     | "pkcs1", [h; e] -> show (pkcs1_verify o_hash (std_pkcs1 o_pkcs1) (rsa_key (hash_of h) v id pub (n_of_dec e) N0) sg msg)
+     | "pss", [h; e; salt] -> show (pss_verify o_hash (std_pss o_pss) (rsa_key (hash_of h) v id pub (n_of_dec e) (n_of_dec salt)) sg msg)
      | _ -> failwith "scheme")
   | [_; "S"; _api; scheme; params; variant; id; priv; _msg; _seed] ->
     (* what Sign must return: prefix || body of the scheme's size; it verifies *)
